@@ -448,6 +448,9 @@ class World2:
         self.pushed_behind_failure = 0  # items handed to a queue behind a failing item
         self.nested_aborts_by_producer = 0  # cancelled producers that had to abort nested work
         self.background = []  # shielded cleanups left to finish in the background
+        # like the executor's shared list of stream item queues: once the execution has been
+        # stopped, work created afterwards is not started and new queues are aborted at once
+        self.closed = False
 
     def build(self, ws):
         groups = []
@@ -459,7 +462,7 @@ class World2:
             comp = Computation(self.task_fn(t), None)
             self.computations.append(comp)
             t.obj = ExecutionGroup([g.obj for g in t.groups], comp, make_path(t.path))
-            if self.early:
+            if self.early and not self.closed:
                 comp.prime()
             tasks.append(t.obj)
         streams = []
@@ -468,6 +471,10 @@ class World2:
                                 capacity=self.capacity)
             self.queues.append(q)
             s.queue = q
+            if self.closed:
+                r = q.abort()
+                if r is not None and hasattr(r, "__await__"):
+                    self.background.append(asyncio.ensure_future(r))
             s.obj = ItemStream(make_path(s.path), s.label, q, 0)
             streams.append(s.obj)
         return Work(groups, tasks, streams)
@@ -588,6 +595,7 @@ class World2:
         return produce
 
     async def abort_all(self, reason=None):
+        self.closed = True
         aw = []
         for c in self.computations:
             r = c.abort(reason)
